@@ -123,3 +123,24 @@ Definition drift_check : bool :=
     image_is (chain_image_f (drift_chain 61) (0, 0)) 0 (61 * 2 ^ 40)
     && image_is (chain_image_f (drift_chain 62) (0, 0)) 1 (62 * 2 ^ 40)
   else true.
+
+(** * Exact tables: when the repository computes the sine and cosine of right angles exactly *)
+(** the dyadic [d] is exactly the integer [z] *)
+Definition dy_is (d : dy) (z : Z) : bool :=
+  let '(m, e) := d in if 0 <=? e then m * 2 ^ e =? z else m =? z * 2 ^ (- e).
+Definition entry_exactb (en : Z * (Z * Z)) : bool :=
+  let '(a, (sb, cb)) := en in
+  match dy_of_bits sb, dy_of_bits cb, exact_cs a with
+  | Some sn, Some cs, Some (C, Sn) => dy_is sn Sn && dy_is cs C
+  | _, _, _ => false
+  end.
+(** every sine and cosine of the table is exactly the mathematical value (0, 1 or -1) *)
+Definition table_exactb : bool := forallb entry_exactb libm_sincos_table.
+
+(** every offset of the exact cascade along the chain, one per prefix, is below [B] in magnitude *)
+Fixpoint offsets_below (B : Z) (t : Ztransform) (zc : list (placement Z)) : Prop :=
+  match zc with
+  | [] => True
+  | z :: r => let t' := cascade_Z t (from_placement_Z z) in
+              Z.abs (b0 t') < B /\ Z.abs (b1 t') < B /\ offsets_below B t' r
+  end.
